@@ -1,4 +1,5 @@
 import Mochi.Lemmas.BrokerDelivery
+import Mochi.Lemmas.ScanMsgs
 /-!
 # From the inbound PUBLISH op to the call of `publishToSubscribers` (C03, end to end)
 
@@ -7,6 +8,164 @@ import Mochi.Lemmas.BrokerDelivery
 This file proves that for an ACCEPTED publish the whole op is that one call, in an explicit state with an explicit
 message (`inboundMsg`, `retainedState`).
 -/
+namespace Mochi.Topics
+
+/-! ### retaining a message does not change which shared subscriptions a topic matches -/
+
+/-- the particle holds a shared subscription -/
+def pShared (n : Node) : Option Unit := if sharedLen n.shared = 0 then none else some ()
+
+theorem deadNone_pShared : DeadNone pShared := by
+  intro n hd
+  unfold pShared
+  rw [if_pos hd.2.2.1]
+
+theorem assocSet_ne_nil {α β} [DecidableEq α] (m : List (α × β)) (k : α) (v : β) : assocSet m k v ≠ [] := by
+  cases m with
+  | nil => simp [assocSet]
+  | cons x xs =>
+    obtain ⟨a, b⟩ := x
+    unfold assocSet
+    split <;> simp
+
+theorem gatherSharedOne_ne_nil (m : List (Str × List (Str × Sub))) (cs : Str × Sub) : gatherSharedOne m cs ≠ [] := by
+  unfold gatherSharedOne
+  split
+  · simp
+  · exact assocSet_ne_nil _ _ _
+
+theorem sharedInner_nil (g : List (Str × Sub)) (m : List (Str × List (Str × Sub))) :
+    g.foldl gatherSharedOne m = [] ↔ m = [] ∧ g = [] := by
+  induction g generalizing m with
+  | nil => simp
+  | cons c rest ih =>
+    rw [List.foldl_cons, ih]
+    constructor
+    · rintro ⟨h, _⟩; exact absurd h (gatherSharedOne_ne_nil m c)
+    · rintro ⟨_, h⟩; cases h
+
+theorem sharedOuter_nil (sh : List (Str × List (Str × Sub))) (m : List (Str × List (Str × Sub))) :
+    sh.foldl (fun m g => g.2.foldl gatherSharedOne m) m = [] ↔ m = [] ∧ sharedLen sh = 0 := by
+  induction sh generalizing m with
+  | nil => simp [sharedLen]
+  | cons g rest ih =>
+    rw [List.foldl_cons, ih, sharedInner_nil]
+    have : sharedLen (g :: rest) = g.2.length + sharedLen rest := by simp [sharedLen]
+    rw [this]
+    constructor
+    · rintro ⟨⟨h1, h2⟩, h3⟩
+      exact ⟨h1, by rw [h2, h3]; rfl⟩
+    · rintro ⟨h1, h2⟩
+      exact ⟨⟨h1, List.eq_nil_of_length_eq_zero (by omega)⟩, by omega⟩
+
+theorem pShared_none_iff (n : Node) : pShared n = none ↔ sharedLen n.shared = 0 := by
+  unfold pShared
+  split <;> simp_all
+
+/-- gathering along a visit list finds no shared subscription iff none of the visited particles (that the `$` rule
+    does not skip) holds one -/
+theorem shared_fold_nil (ns : List Node) (topic : Str) (L : List Gather) (acc : Subscribers) :
+    (L.foldl (gatherStep ns topic) acc).shared = [] ↔
+      acc.shared = [] ∧ ∀ q, Gather.shared q ∈ L → (topicDollar topic && wildStart q) = false →
+        (getNode ns q).bind pShared = none := by
+  induction L generalizing acc with
+  | nil => simp
+  | cons g rest ih =>
+    rw [List.foldl_cons, ih]
+    cases g with
+    | subs p =>
+      have : (gatherStep ns topic acc (Gather.subs p)).shared = acc.shared := by
+        simp only [gatherStep]; cases getNode ns p <;> rfl
+      rw [this]
+      constructor
+      · rintro ⟨h1, h2⟩
+        refine ⟨h1, fun q hq => ?_⟩
+        rcases List.mem_cons.mp hq with h | h
+        · cases h
+        · exact h2 q h
+      · rintro ⟨h1, h2⟩
+        exact ⟨h1, fun q hq => h2 q (List.mem_cons_of_mem _ hq)⟩
+    | inline p =>
+      have : (gatherStep ns topic acc (Gather.inline p)).shared = acc.shared := by
+        simp only [gatherStep]; cases getNode ns p <;> simp only <;> split <;> rfl
+      rw [this]
+      constructor
+      · rintro ⟨h1, h2⟩
+        refine ⟨h1, fun q hq => ?_⟩
+        rcases List.mem_cons.mp hq with h | h
+        · cases h
+        · exact h2 q h
+      · rintro ⟨h1, h2⟩
+        exact ⟨h1, fun q hq => h2 q (List.mem_cons_of_mem _ hq)⟩
+    | shared p =>
+      have key : (gatherStep ns topic acc (Gather.shared p)).shared = [] ↔
+          acc.shared = [] ∧ ((topicDollar topic && wildStart p) = false → (getNode ns p).bind pShared = none) := by
+        simp only [gatherStep]
+        cases hn : getNode ns p with
+        | none => simp
+        | some n =>
+          simp only [Option.bind_some]
+          by_cases hd : (topicDollar topic && wildStart p) = true
+          · rw [if_pos hd]; simp [hd]
+          · have hd' : (topicDollar topic && wildStart p) = false := by simpa using hd
+            rw [if_neg hd]
+            show n.shared.foldl _ acc.shared = [] ↔ _
+            rw [sharedOuter_nil, pShared_none_iff]
+            simp [hd']
+      rw [key]
+      constructor
+      · rintro ⟨⟨h1, h0⟩, h2⟩
+        refine ⟨h1, fun q hq => ?_⟩
+        rcases List.mem_cons.mp hq with h | h
+        · injection h with h; subst h; exact h0
+        · exact h2 q h
+      · rintro ⟨h1, h2⟩
+        exact ⟨⟨h1, h2 p List.mem_cons_self⟩, fun q hq => h2 q (List.mem_cons_of_mem _ hq)⟩
+
+/-- **no shared subscription matches the topic**, in terms of the particles: no particle whose address matches the
+    topic (and that the `$` rule does not skip) holds a shared subscription -/
+theorem subscribers_shared_nil_iff (x : Index) (hpc : PrefixClosed x.nodes) (topic : Str)
+    (hne : topic ≠ []) (hnh : ∀ t ∈ splitLevels topic, t ≠ [hash]) :
+    (subscribers x topic).shared = [] ↔
+      ∀ q, matchLv q (splitLevels topic) = true → (topicDollar topic && wildStart q) = false →
+        (getNode x.nodes q).bind pShared = none := by
+  unfold subscribers
+  have : topic.isEmpty = false := by cases topic <;> simp_all
+  simp only [this, Bool.false_eq_true, if_false]
+  rw [shared_fold_nil]
+  have hscan : ∀ q, Gather.shared q ∈ scanVisits x.nodes [] (splitLevels topic) ↔
+      hasNode x.nodes q = true ∧ matchLv q (splitLevels topic) = true := by
+    intro q
+    rw [scan_iff Gather.shared mem_gatherAll_shared _ hpc _ (splitLevels_ne_nil topic) hnh]
+    simp
+  constructor
+  · rintro ⟨_, h⟩ q hm hd
+    cases hn : getNode x.nodes q with
+    | none => rfl
+    | some n =>
+      rw [← hn]
+      refine h q ((hscan q).mpr ⟨?_, hm⟩) hd
+      rw [hasNode_iff]
+      exact ⟨n, getNode_mem hn, getNode_path hn⟩
+  · intro h
+    exact ⟨rfl, fun q hq hd => h q ((hscan q).mp hq).2 hd⟩
+
+/-- retaining (or clearing) a message leaves "no shared subscription matches `topic`" as it was -/
+theorem subscribers_shared_retainMessage (x : Index) (hx : IdxOK x) (t p : Str) (fl : Bool) (topic : Str)
+    (hne : topic ≠ []) (hnh : ∀ t ∈ splitLevels topic, t ≠ [hash]) :
+    (subscribers (retainMessage x t p fl).1 topic).shared = [] ↔ (subscribers x topic).shared = [] := by
+  rw [subscribers_shared_nil_iff _ (idxOK_retainMessage x hx t p fl).pc topic hne hnh,
+    subscribers_shared_nil_iff x hx.pc topic hne hnh]
+  constructor
+  · intro h q hm hd
+    rw [← retainMessage_look x t p fl pShared deadNone_pShared (fun _ _ => rfl) q]
+    exact h q hm hd
+  · intro h q hm hd
+    rw [retainMessage_look x t p fl pShared deadNone_pShared (fun _ _ => rfl) q]
+    exact h q hm hd
+
+end Mochi.Topics
+
 namespace Mochi.Broker
 open Mochi.Topics
 
@@ -109,5 +268,282 @@ theorem processPublish_accepted_shape_qos1 (s : Server) (i : Nat) (dup retain : 
       = true) := by rw [hlive]; exact Bool.false_ne_true
   refine (if_neg hl).trans ?_
   rfl
+
+/-! ### a QoS 0 delivery files nothing: in-flight records and send quota of every object are kept -/
+
+theorem aliasOutSet_keep (c : Client) (t : Str) :
+    (aliasOutSet c t).1.inflight = c.inflight ∧ (aliasOutSet c t).1.sendQuota = c.sendQuota := by
+  unfold aliasOutSet
+  split
+  · exact ⟨rfl, rfl⟩
+  · split
+    · exact ⟨rfl, rfl⟩
+    · split <;> exact ⟨rfl, rfl⟩
+
+theorem publishToClientCore_q0_keep (s : Server) (i : Nat) (sub : Sub) (f : Bool) (pk : Msg)
+    (hq : pk.qos = 0 ∨ sub.qos = 0) (k : Nat) :
+    (getObj (publishToClientCore s i sub f pk).1 k).inflight = (getObj s k).inflight ∧
+    (getObj (publishToClientCore s i sub f pk).1 k).sendQuota = (getObj s k).sendQuota := by
+  unfold publishToClientCore
+  extract_lets c out
+  split
+  rename_i c1 out1 heq
+  have hout : out.qos = 0 := shapeQos_zero_of s.caps sub pk.qos hq
+  have h1 : (c1.inflight = c.inflight ∧ c1.sendQuota = c.sendQuota) ∧ out1.qos = 0 := by
+    split at heq
+    · split at heq
+      rename_i c' a ex h2
+      have h3 := aliasOutSet_keep c pk.topic
+      rw [h2] at h3
+      split at heq
+      · cases heq; exact ⟨h3, hout⟩
+      · cases heq; exact ⟨h3, hout⟩
+    · cases heq; exact ⟨⟨rfl, rfl⟩, hout⟩
+  clear heq
+  have hz : ¬ out1.qos > 0 := by rw [h1.2]; exact Nat.lt_irrefl 0
+  simp only [hz, if_false]
+  have e : (if (!c1.isOpen) = true then (setObj s i c1, ([] : List Out)) else (setObj s i c1, writeMsg (setObj s i c1) i out1)).1
+      = setObj s i c1 := by split <;> rfl
+  rw [e]
+  by_cases hk : k = i
+  · subst hk
+    rcases getObj_setObj_self_cases s k c1 with e' | e'
+    · rw [e']; exact h1.1
+    · rw [e']; exact ⟨rfl, rfl⟩
+  · rw [getObj_setObj_ne s i k c1 hk]; exact ⟨rfl, rfl⟩
+
+theorem publishToClient_q0_keep (s : Server) (i : Nat) (sub : Sub) (f : Bool) (pk : Msg)
+    (hq : pk.qos = 0 ∨ sub.qos = 0) (k : Nat) :
+    (getObj (publishToClient s i sub f pk).1 k).inflight = (getObj s k).inflight ∧
+    (getObj (publishToClient s i sub f pk).1 k).sendQuota = (getObj s k).sendQuota := by
+  unfold publishToClient
+  split
+  · exact ⟨rfl, rfl⟩
+  · split
+    · exact ⟨rfl, rfl⟩
+    · exact publishToClientCore_q0_keep s i sub f pk hq k
+
+theorem fold_q0_keep (pk : Msg) (L : List (Str × Sub)) (hq : pk.qos = 0 ∨ ∀ cs ∈ L, cs.2.qos = 0) (k : Nat) :
+    ∀ acc : Server × List Out,
+      (getObj (L.foldl (deliverStep pk) acc).1 k).inflight = (getObj acc.1 k).inflight ∧
+      (getObj (L.foldl (deliverStep pk) acc).1 k).sendQuota = (getObj acc.1 k).sendQuota := by
+  induction L with
+  | nil => intro acc; exact ⟨rfl, rfl⟩
+  | cons cs rest ih =>
+    have hq1 : pk.qos = 0 ∨ cs.2.qos = 0 := hq.imp id (fun h => h cs List.mem_cons_self)
+    replace ih := ih (hq.imp id (fun h c hc => h c (List.mem_cons_of_mem _ hc)))
+    intro acc
+    rw [List.foldl_cons]
+    obtain ⟨a, b⟩ := ih (deliverStep pk acc cs)
+    have hs : (getObj (deliverStep pk acc cs).1 k).inflight = (getObj acc.1 k).inflight ∧
+        (getObj (deliverStep pk acc cs).1 k).sendQuota = (getObj acc.1 k).sendQuota := by
+      unfold deliverStep
+      split
+      · exact ⟨rfl, rfl⟩
+      · rename_i j _
+        exact publishToClient_q0_keep acc.1 j cs.2 false pk hq1 k
+    exact ⟨a.trans hs.1, b.trans hs.2⟩
+
+/-- a message that is QoS 0 after shaping, no shared subscription matching: `publishToSubscribers` leaves the
+    in-flight records and the send quota of every client object alone -/
+theorem publishToSubscribers_q0_keep (s : Server) (pk : Msg) (hig : pk.ignore = false)
+    (hq : pk.qos = 0 ∨ ∀ cs ∈ (subscribers s.topics pk.topic).subs, cs.2.qos = 0)
+    (hsh : (subscribers s.topics pk.topic).shared = []) (k : Nat) :
+    (getObj (publishToSubscribers s pk).1 k).inflight = (getObj s k).inflight ∧
+    (getObj (publishToSubscribers s pk).1 k).sendQuota = (getObj s k).sendQuota := by
+  rw [publishToSubscribers_eq_fold s pk hig hsh]
+  exact fold_q0_keep (stamped s pk) _ (hq.imp (fun h => (stamped_fields s pk).2.2.1.trans h) id) k _
+
+/-! ### the tail of `processPacket`: nothing is released when the client has no deferred message -/
+
+theorem permuteBy_nil {α} (seed : Nat) : permuteBy seed ([] : List α) = [] := rfl
+
+/-- `nextImmediate` releases a message only if the client holds a DEFERRED in-flight message (`expiry < 0`: queued
+    by `publishToClientCore` when the send quota was exhausted) and has send quota -/
+theorem nextImmediate_none (s : Server) (i : Nat) (h : ∀ m ∈ (getObj s i).inflight, 0 ≤ m.expiry) :
+    nextImmediate s i = (s, []) := by
+  have hf : (getObj s i).inflight.filter (fun m => decide (m.expiry < 0)) = [] := by
+    rw [List.filter_eq_nil_iff]
+    intro m hm
+    have := h m hm
+    simp only [decide_eq_true_eq]
+    omega
+  unfold nextImmediate
+  simp only [hf, permuteBy_nil, List.head?_nil]
+  split <;> rfl
+
+/-! ### the op -/
+
+theorem retainMsg_objs (s : Server) (pk : Msg) : (retainMsg s pk).objs = s.objs := by
+  unfold retainMsg; split <;> rfl
+
+theorem retainedState_objs (s : Server) (pk : Msg) : (retainedState s pk).objs = s.objs := by
+  unfold retainedState; split
+  · exact retainMsg_objs s pk
+  · rfl
+
+theorem getObj_retainedState (s : Server) (pk : Msg) (k : Nat) : getObj (retainedState s pk) k = getObj s k :=
+  getObj_of_objs_eq (retainedState_objs s pk) k
+
+/-- a topic name acceptable to `IsValidFilter(topic, true)` contains no wildcard character -/
+theorem isValidFilter_pub_no_wild (topic : Str) (hv : isValidFilter topic true = true) :
+    (topic.contains plus || topic.contains hash) = false := by
+  cases h : (topic.contains plus || topic.contains hash)
+  · rfl
+  · unfold isValidFilter at hv
+    simp at hv h
+    rcases h with h | h
+    · exact absurd h hv.2.1
+    · exact absurd h hv.2.2
+
+theorem publishValidate_accepted (s : Server) (topic : Str) (hv : isValidFilter topic true = true) (hne : topic ≠ []) :
+    publishValidate s 0 0 topic none = none := by
+  have hw := isValidFilter_pub_no_wild topic hv
+  have hne' : topic.isEmpty = false := by cases topic <;> simp_all
+  simp at hw
+  unfold publishValidate
+  simp [hw, hne']
+
+/-- the hypotheses under which an inbound QoS 0 PUBLISH of client object `i` is ACCEPTED and nothing else happens
+    in the op: all decidable, all on the state before the op -/
+structure AcceptedQ0 (s : Server) (i : Nat) (topic : Str) : Prop where
+  /-- the client is a network client whose connection is alive -/
+  isOpen : (getObj s i).isOpen = true
+  peer : (getObj s i).peerGone = false
+  notInline : (getObj s i).inline = false
+  /-- `IsValidFilter(topic, true)`: no wildcard, not `$SYS/…`; the topic is not empty (no alias) -/
+  valid : isValidFilter topic true = true
+  nonempty : topic ≠ []
+  /-- receive quota left (else: DISCONNECT 0x93) -/
+  quota : (getObj s i).recvQuota ≠ 0
+  /-- write permission on the topic (else: silently dropped) -/
+  acl : aclOk s (getObj s i).id topic true = true
+  /-- no in-flight record under packet id 0 -/
+  noRecord : flGet (getObj s i) 0 = none
+  /-- `OnPublish` hook mode of the topic: none -/
+  hook : assocGet s.pubHook topic = none
+  /-- the publisher itself holds no deferred in-flight message (`nextImmediate` would release one, to the publisher) -/
+  noDeferred : ∀ m ∈ (getObj s i).inflight, 0 ≤ m.expiry
+
+theorem receivePacket_publish_accepted (s : Server) (i : Nat) (dup retain : Bool) (topic payload : Str) (me : Nat)
+    (h : AcceptedQ0 s i topic)
+    (hsh : (subscribers (retainedState s (inboundMsg s i 0 dup retain 0 topic payload me)).topics topic).shared = []) :
+    receivePacket s i (.publish 0 dup retain 0 topic payload me none) =
+      ((publishToSubscribers (retainedState s (inboundMsg s i 0 dup retain 0 topic payload me))
+          (inboundMsg s i 0 dup retain 0 topic payload me)).1,
+       (publishToSubscribers (retainedState s (inboundMsg s i 0 dup retain 0 topic payload me))
+          (inboundMsg s i 0 dup retain 0 topic payload me)).2, none) := by
+  have hk := publishToSubscribers_q0_keep (retainedState s (inboundMsg s i 0 dup retain 0 topic payload me))
+    (inboundMsg s i 0 dup retain 0 topic payload me) rfl (Or.inl rfl) hsh i
+  have hn := nextImmediate_none (publishToSubscribers (retainedState s (inboundMsg s i 0 dup retain 0 topic payload me))
+    (inboundMsg s i 0 dup retain 0 topic payload me)).1 i (by
+      rw [hk.1, getObj_retainedState]; exact h.noDeferred)
+  unfold receivePacket
+  simp only [publishValidate_accepted s topic h.valid h.nonempty,
+    processPublish_accepted_shape s i dup retain 0 topic payload me h.notInline h.valid h.quota h.acl h.noRecord
+      h.nonempty h.hook, hn, List.append_nil]
+
+/-- the harness's barrier PINGREQ on a live connection without deferred messages: a PINGRESP, nothing else -/
+theorem receivePacket_pingreq_quiet (s : Server) (i : Nat) (ho : (getObj s i).isOpen = true)
+    (hp : (getObj s i).peerGone = false) (hd : ∀ m ∈ (getObj s i).inflight, 0 ≤ m.expiry) :
+    receivePacket s i .pingreq = (s, [.wrote (getObj s i).conn .pingresp], none) := by
+  unfold receivePacket
+  simp only [dead_of_live ho hp, Bool.not_false, if_true, nextImmediate_none s i hd, List.append_nil]
+
+/-- **the op is the call.**  `step s (.recv conn (PUBLISH QoS 0 …))` for an accepted publish on the connection of
+    client object `i`, no shared subscription matching the topic: state and outputs of the whole op (`recvOn`:
+    `receivePacket`, release of a deferred message, barrier PINGREQ and its release) are those of
+    `publishToSubscribers` in the state with the retained store updated. -/
+theorem step_recv_publish_accepted (s : Server) (conn i : Nat) (dup retain : Bool) (topic payload : Str) (me : Nat)
+    (hc : assocGet s.connOf conn = some i) (h : AcceptedQ0 s i topic)
+    (hsh : (subscribers (retainedState s (inboundMsg s i 0 dup retain 0 topic payload me)).topics topic).shared = []) :
+    step s (.recv conn (.publish 0 dup retain 0 topic payload me none)) =
+      publishToSubscribers (retainedState s (inboundMsg s i 0 dup retain 0 topic payload me))
+        (inboundMsg s i 0 dup retain 0 topic payload me) := by
+  have hk := publishToSubscribers_q0_keep (retainedState s (inboundMsg s i 0 dup retain 0 topic payload me))
+    (inboundMsg s i 0 dup retain 0 topic payload me) rfl (Or.inl rfl) hsh i
+  have hd := (publishToSubscribers_deliv (retainedState s (inboundMsg s i 0 dup retain 0 topic payload me))
+    (inboundMsg s i 0 dup retain 0 topic payload me)).all i
+  rw [getObj_retainedState] at hd
+  have ho := hd.isOpen.symm.trans h.isOpen
+  have hp := hd.peerGone.symm.trans h.peer
+  have hping := receivePacket_pingreq_quiet _ i ho hp (by
+    rw [hk.1, getObj_retainedState]; exact h.noDeferred)
+  rw [step]
+  unfold recvOn
+  simp only [hc, h.isOpen, receivePacket_publish_accepted s i dup retain topic payload me h hsh, ho, hping,
+    Bool.not_true, Bool.false_eq_true, if_false, if_true, List.filter_cons, List.filter_nil, List.append_nil]
+
+/-! ### the state with the retained store updated: same tables, same entitlement -/
+
+theorem retainedState_quiet (s : Server) (pk : Msg) : Quiet s (retainedState s pk) := by
+  unfold retainedState; split
+  · exact retainMsg_quiet s pk
+  · exact Quiet.refl s
+
+theorem retainMsg_aclDeny (s : Server) (pk : Msg) : (retainMsg s pk).aclDeny = s.aclDeny := by
+  unfold retainMsg; split <;> rfl
+
+theorem retainedState_aclDeny (s : Server) (pk : Msg) : (retainedState s pk).aclDeny = s.aclDeny := by
+  unfold retainedState; split
+  · exact retainMsg_aclDeny s pk
+  · rfl
+
+/-- the three invariants of the delivery theorem hold in the state in which the accepted publish is routed -/
+theorem retainedState_inv {s : Server} (pk : Msg) (hs : SyncInv s) (hw : WF s) (hcm : ConnMap s) :
+    SyncInv (retainedState s pk) ∧ WF (retainedState s pk) ∧ ConnMap (retainedState s pk) := by
+  refine ⟨hs.of_quiet (retainedState_quiet s pk), ?_,
+    hcm.of_ck (CK.of_objs (retainedState_objs s pk) (retainedState_quiet s pk).connOf)⟩
+  unfold retainedState; split
+  · exact retainMsg_wf s pk hw
+  · exact hw
+
+theorem retainedState_shared (s : Server) (pk0 : Msg) (hx : IdxOK s.topics) (topic : Str)
+    (hne : topic ≠ []) (hnh : ∀ t ∈ splitLevels topic, t ≠ [hash]) :
+    (subscribers (retainedState s pk0).topics topic).shared = [] ↔ (subscribers s.topics topic).shared = [] := by
+  unfold retainedState; split
+  · unfold retainMsg; split
+    · exact Iff.rfl
+    · exact subscribers_shared_retainMessage s.topics hx _ _ _ topic hne hnh
+  · exact Iff.rfl
+
+theorem matchingSub_congr {x y : Index} (hp : ∀ q c, plainAt y q c = plainAt x q c) (topic c : Str) (sub : Sub) :
+    MatchingSub y topic c sub ↔ MatchingSub x topic c sub := by
+  unfold MatchingSub; rw [hp]
+
+theorem aclOk_congr {s s' : Server} (ha : s'.aclDeny = s.aclDeny) (cid topic : Str) (w : Bool) :
+    aclOk s' cid topic w = aclOk s cid topic w := by
+  unfold aclOk; rw [ha]
+
+/-- entitlement reads `objs`, `clients`, `aclDeny` and the plain subscriptions of the index: nothing else -/
+theorem entitledF03_congr {s s' : Server} (ho : s'.objs = s.objs) (hc : s'.clients = s.clients)
+    (ha : s'.aclDeny = s.aclDeny) (hp : ∀ q c, plainAt s'.topics q c = plainAt s.topics q c) (pk : Msg) (n : Nat) :
+    EntitledF03 s' pk n ↔ EntitledF03 s pk n := by
+  unfold EntitledF03
+  simp only [hc, getObj_of_objs_eq ho, aclOk_congr ha, matchingSub_congr hp]
+
+theorem entitledSession_congr {s s' : Server} (ho : s'.objs = s.objs) (hc : s'.clients = s.clients)
+    (ha : s'.aclDeny = s.aclDeny) (hp : ∀ q c, plainAt s'.topics q c = plainAt s.topics q c) (pk : Msg) (n : Nat) :
+    EntitledSession s' pk n ↔ EntitledSession s pk n := by
+  unfold EntitledSession
+  simp only [hc, getObj_of_objs_eq ho, aclOk_congr ha, matchingSub_congr hp]
+
+theorem entitledF03_retainedState (s : Server) (pk0 pk : Msg) (n : Nat) :
+    EntitledF03 (retainedState s pk0) pk n ↔ EntitledF03 s pk n :=
+  entitledF03_congr (retainedState_objs s pk0) (retainedState_quiet s pk0).clients (retainedState_aclDeny s pk0)
+    (retainedState_quiet s pk0).plain pk n
+
+theorem entitledSession_retainedState (s : Server) (pk0 pk : Msg) (n : Nat) :
+    EntitledSession (retainedState s pk0) pk n ↔ EntitledSession s pk n :=
+  entitledSession_congr (retainedState_objs s pk0) (retainedState_quiet s pk0).clients (retainedState_aclDeny s pk0)
+    (retainedState_quiet s pk0).plain pk n
+
+/-- a topic name without wildcard character has no level `#` -/
+theorem no_hash_level (topic : Str) (hv : isValidFilter topic true = true) : ∀ t ∈ splitLevels topic, t ≠ [hash] := by
+  intro t ht e
+  have hw := isValidFilter_pub_no_wild topic hv
+  have : hash ∈ topic := mem_splitLevels topic t ht hash (by rw [e]; exact List.mem_singleton.mpr rfl)
+  simp at hw
+  exact hw.2 this
 
 end Mochi.Broker
